@@ -21,6 +21,11 @@ pub struct Faults {
     pub list_page: usize,
 }
 
+/// called for every PUT that is going to be stored, before it is stored and answered (the uploader is waiting for the
+/// answer): (object path, number of the PUT)
+pub type OnPut = Box<dyn FnMut(&str, u64) + Send>;
+pub static ON_PUT: Mutex<Option<OnPut>> = Mutex::new(None);
+
 pub struct Stub {
     pub port: u16,
     pub objects: Arc<Mutex<BTreeMap<String, Vec<u8>>>>,
@@ -87,6 +92,12 @@ impl Stub {
                             let _ = rq.respond(fail500());
                         }
                         continue;
+                    }
+                    {
+                        let mut cb = ON_PUT.lock().unwrap();
+                        if let Some(cb) = cb.as_mut() {
+                            cb(&path, n);
+                        }
                     }
                     // body may be aws-chunked; nun-db sends plain bodies (verified by the self-test)
                     o.lock().unwrap().insert(path.clone(), body);
